@@ -715,7 +715,8 @@ where
             .await
             .and_then(|n| Ok(field_type_from_u8(n)?))?;
         let size = self.read_i32().await?;
-        Ok(TListIdentifier::new(element_type, size as usize))
+        let size = super::check_wire_count(size as i64, None)?;
+        Ok(TListIdentifier::new(element_type, size))
     }
 
     #[inline]
@@ -730,7 +731,8 @@ where
             .await
             .and_then(|n| Ok(field_type_from_u8(n)?))?;
         let size = self.read_i32().await?;
-        Ok(TSetIdentifier::new(element_type, size as usize))
+        let size = super::check_wire_count(size as i64, None)?;
+        Ok(TSetIdentifier::new(element_type, size))
     }
 
     #[inline]
@@ -749,7 +751,8 @@ where
             .await
             .and_then(|n| Ok(field_type_from_u8(n)?))?;
         let size = self.read_i32().await?;
-        Ok(TMapIdentifier::new(key_type, value_type, size as usize))
+        let size = super::check_wire_count(size as i64, None)?;
+        Ok(TMapIdentifier::new(key_type, value_type, size))
     }
 
     #[inline]
@@ -919,7 +922,8 @@ impl TInputProtocol for TBinaryProtocol<&mut Bytes> {
     fn read_list_begin(&mut self) -> Result<TListIdentifier, ThriftException> {
         let element_type: TType = self.read_byte().and_then(|n| Ok(field_type_from_u8(n)?))?;
         let size = self.read_i32()?;
-        Ok(TListIdentifier::new(element_type, size as usize))
+        let size = super::check_wire_count(size as i64, Some(self.trans.len()))?;
+        Ok(TListIdentifier::new(element_type, size))
     }
 
     #[inline]
@@ -931,7 +935,8 @@ impl TInputProtocol for TBinaryProtocol<&mut Bytes> {
     fn read_set_begin(&mut self) -> Result<TSetIdentifier, ThriftException> {
         let element_type: TType = self.read_byte().and_then(|n| Ok(field_type_from_u8(n)?))?;
         let size = self.read_i32()?;
-        Ok(TSetIdentifier::new(element_type, size as usize))
+        let size = super::check_wire_count(size as i64, Some(self.trans.len()))?;
+        Ok(TSetIdentifier::new(element_type, size))
     }
 
     #[inline]
@@ -944,7 +949,8 @@ impl TInputProtocol for TBinaryProtocol<&mut Bytes> {
         let key_type: TType = self.read_byte().and_then(|n| Ok(field_type_from_u8(n)?))?;
         let value_type: TType = self.read_byte().and_then(|n| Ok(field_type_from_u8(n)?))?;
         let size = self.read_i32()?;
-        Ok(TMapIdentifier::new(key_type, value_type, size as usize))
+        let size = super::check_wire_count(size as i64, Some(self.trans.len()))?;
+        Ok(TMapIdentifier::new(key_type, value_type, size))
     }
 
     #[inline]
